@@ -3,7 +3,7 @@ from props._create import create_check, SAB_SCRATCH, SAB_RESET
 
 
 def run(tier):
-    return create_check(
+    rep = create_check(
         "C02", tier,
         "C02: every admissible projection target (each m_j from 0 to 2n_j) for every list x every row over the call "
         "alphabet; the three apply paths (exact t=m, projected, insufficient) are distinguished per record; inadmissible "
@@ -12,3 +12,14 @@ def run(tier):
         ["MCCreate_c02_quick.cfg", "MCCreate_badproj.cfg"],
         ["MCCreate_c02_t1.cfg", "MCCreate_badproj.cfg", "MCCreate_hist_t1.cfg"],
         [SAB_SCRATCH, SAB_RESET])
+    # cohorts of hundreds of samples, at class level (CreateLarge.tla)
+    from vcore import tlc_must_pass, replay
+    r = tlc_must_pass("c02_large", "MCCreateLarge", "MCCreateLarge_quick.cfg" if tier == "quick" else "MCCreateLarge_t1.cfg",
+                      workers=4, timeout=3000)
+    rep.add_tlc(r)
+    rep.add_replay("createlarge", replay("createlarge", r.replay, "c02_large"))
+    rep.rule += (" Cohorts: CreateLarge.tla applies class-level records (called individuals, ALT alleles per population) of "
+                 "populations with up to 600 individuals (sizes around 1030 chromosomes, where binomial coefficients leave the "
+                 "f64 range) and emits the exact projected spectrum; each scenario is rendered as a VCF and run through "
+                 "`sfs create --project-shape / -p`.")
+    return rep
